@@ -554,3 +554,6 @@ def run(ctx, rep):
             f(ctx, rep)
         except Unsupported as u:
             rep.undecided(rule, f.__name__, f"line {getattr(u.node, 'lineno', 0)}", str(u))
+    # the image handed to log_abs_det_jacobian must be the image of the *current* value: torch's identity-keyed (x, y) cache must stay off
+    from props import c11
+    c11.check_transform_cache(ctx, rep, rule='C07.C')
